@@ -26,10 +26,11 @@ SPEC = {
                      "parent_valid_sampled": 100000, "parent_valid_unsampled": 100000, "parent_invalid": 100000,
                      "parent_flag_byte_sweeps": 1000, "tracer_root_sampled": 40000, "tracer_root_dropped": 40000},
     },
-    "engine": "E1 model-oracle",
+    "engine": "E1 model-oracle + E2 real threads",
     "technique": ("the statement itself evaluated over sets of ratios and generated trace ids against the real samplers "
                   "under ASan+UBSan (float-cast-overflow on), recording delegate sampler, real Tracer with a scripted "
-                  "id generator"),
+                  "id generator; plus one sampler object shared by 2-8 real threads under ThreadSanitizer with the perturbation "
+                  "shim, every decision compared with a thread-private twin"),
     "level_text": ("exploration: for thousands of ratio sets (special values and 1..4-ulp neighbours) every sampler is "
                    "asked about the same ids - random, extreme, and ids straddling each sampler's own threshold found "
                    "by bisection through the public ShouldSample - and the decisions are compared with the statement "
@@ -50,6 +51,7 @@ SPEC = {
              "of remote parents) started through a real Tracer whose id generator supplies the chosen trace id. "
              "Names are exact-size unterminated heap views. Every case is non-trivial; distinct = hash of the ratio "
              "bit patterns and parent classes."),
+    "rule_extra": ' Round 2: plus 300 (thorough 20000) shared-sampler cases: one ratio / parent-based(ratio) / constant sampler object asked by 2-8 real threads (200-2000 decisions each, own and fresh trace ids, valid and invalid parents) under TSan + shim; every decision must equal that of a thread-private twin.',
     "assumptions": ASSUME_COMMON + [
         "NaN ratios are excluded (the statement gives no meaning to them); they are generated, counted (nan_ratios_excluded) and skipped",
         "'sampled' means Decision::RECORD_AND_SAMPLE; RECORD_ONLY counts as not sampled",
